@@ -370,6 +370,13 @@ def call_bound(E, b, args, kw, st, out, node):
                 kt = z3.simplify(k.t)
                 if z3.is_string_value(kt):
                     return [(st, r.d.get(pystr(kt), dflt))]
+                # symbolic key on a table of strings: an if-then-else chain over the table's keys
+                skeys = [k_ for k_ in r.d if isinstance(k_, str)]
+                if skeys and all(isinstance(r.d[k_], VStr) for k_ in skeys) and isinstance(dflt, VStr) and len(skeys) == len(r.d):
+                    t_ = dflt.t
+                    for k_ in reversed(skeys):
+                        t_ = z3.If(k.t == z3.StringVal(k_), r.d[k_].t, t_)
+                    return [(st, VStr(t_))]
                 # symbolic key: ite chain (all values must be strings)
                 vals = [(key, v) for key, v in r.d.items() if isinstance(key, str)]
                 if all(isinstance(v, VStr) for _, v in vals) and isinstance(dflt, VStr):
@@ -449,10 +456,16 @@ def str_method(E, r, m, args, kw, st, out, node):
         if E._conc(t) is not None:
             return [(st, VStr(E._conc(t).lower()))]
         return [(st, VStr(lower(t)))]
-    if m == "startswith":
-        return [(st, VBool(z3.PrefixOf(args[0].t, t)))]
-    if m == "endswith":
-        return [(st, VBool(z3.SuffixOf(args[0].t, t)))]
+    if m in ("startswith", "endswith"):
+        rel = z3.PrefixOf if m == "startswith" else z3.SuffixOf
+        if isinstance(args[0], (VTuple, VCList)):
+            # a tuple of alternatives
+            if not all(isinstance(x, VStr) for x in args[0].items):
+                raise OutOfSubset("%s with a non-string alternative" % m)
+            return [(st, VBool(z3.Or([rel(x.t, t) for x in args[0].items] + [z3.BoolVal(False)])))]
+        if not isinstance(args[0], VStr):
+            raise OutOfSubset("%s(%r)" % (m, args[0]))
+        return [(st, VBool(rel(args[0].t, t)))]
     if m == "find":
         return [(st, VInt(z3.IndexOf(t, args[0].t, 0)))]
     if m == "rfind":
